@@ -330,3 +330,35 @@ func H12_seq() {
 	}
 	sv.Reach("sequence-done")
 }
+
+// H12_lines: sources with line breaks (leading, inner, trailing, CR LF,
+// doubled) through Eval, Compile + call and Debug: a value or an error, never
+// a panic - Debug answers a source it cannot lay out on one line with its
+// error result.
+func H12_lines() {
+	srcs := []string{"a + 1\n", "\na + 1", "a +\n1", "a + 1\r\n", "a + 1\n\n", "a + xs[1] > 2\n", "a + 1 \n ", "xs[5]\n", "a +\n", "\n"}
+	src := srcs[sv.Choice("src", len(srcs))]
+	host := map[string]interface{}{"xs": []float64{1, 2}, "a": 2.5}
+	api := sv.Choice("api", 3)
+	var res *val.Val
+	var err error
+	cls := sv.Outcome(func() {
+		switch api {
+		case 0:
+			res, err = Eval(src, host)
+		case 1:
+			var c Callable
+			c, err = NewExpr().Compile(src, host)
+			if err == nil {
+				res, err = c(host)
+			}
+		default:
+			res, _, err = Debug(src, host)
+		}
+	})
+	sv.Assert("no-panic-escapes-the-public-api", cls == "ok")
+	if cls == "ok" {
+		sv.Assert("a-value-or-an-error", (err != nil) != (res != nil))
+	}
+	sv.Reach("called")
+}
